@@ -5,13 +5,13 @@ CXX_ASAN ?= clang++
 COMMON = -std=c++17 -DYOMM2_VERIF_SIM -I$(REPO)/include -Isim -Wno-deprecated-declarations
 ASAN_FLAGS = $(COMMON) -O1 -gline-tables-only -fno-omit-frame-pointer -fsanitize=address,undefined -fno-sanitize-recover=undefined
 
-POLS = dbg rel vec map ind cind thr dfr dfv sdbg srel mapx mapy relx vecx
-GENERIC = common plan exec gen main extras tw
+POLS = dbg rel vec map ind cind thr dfr dfv sdbg srel mapx mapy relx vecx sofd sofr
+GENERIC = common plan exec gen main extras tw genglue
 HDRS = $(wildcard sim/*.hpp) $(shell find $(REPO)/include -name '*.hpp')
 
 ASAN_OBJS = $(addprefix $(B)/asan/,$(addsuffix .o,$(GENERIC) $(addprefix pol_,$(POLS))))
 
-TSAN_FLAGS = $(COMMON) -O1 -gline-tables-only -fno-omit-frame-pointer -fsanitize=thread -DYS_NO_NEW_REPLACEMENT
+TSAN_FLAGS = $(COMMON) -O1 -gline-tables-only -fno-omit-frame-pointer -fsanitize=thread -DYS_NO_NEW_REPLACEMENT -DYS_NO_GLUE
 TSAN_POLS = rel dbg ind map cind sdbg thr vec
 TSAN_GENERIC = common plan exec gen sched atomyield twsched
 WRAPPED = $(foreach n,8 32 64,$(foreach op,load store exchange fetch_add fetch_sub compare_exchange_strong compare_exchange_weak,__tsan_atomic$(n)_$(op))) __cxa_guard_acquire __cxa_guard_release __cxa_guard_abort
